@@ -6,7 +6,7 @@ CONSTANTS
   EvoSteps = 1
   Modes = {"enc", "dec"}
   RawPad = 3
-  UseImplSkip = FALSE
+  SkipVariant = "observed"
 INVARIANT InBounds
 INVARIANT EncRefines
 INVARIANT DecRefines
